@@ -100,6 +100,19 @@ class OpaqueV(object):
         self.field = field
 
 
+class DataV(object):
+    """the optional `data` argument of update(): a mapping name -> price for the date (legacy path)"""
+
+    __slots__ = ("term",)
+
+    def __init__(self, term):
+        self.term = term
+
+
+dataval_f = z3.Function("data_value", Ref, Str, z3.RealSort())
+dataval_nan_f = z3.Function("data_value_nan", Ref, Str, z3.BoolSort())
+
+
 class Opt(object):
     """value that may be None"""
 
